@@ -9,8 +9,8 @@ use serde::{Deserialize, Serialize};
 
 use crate::cfg::{AvailableValueMap, MathOp};
 use crate::parser::{
-    CsrImm, HasRegisterSets, InstructionProperties, LabelString, LabelStringToken,
-    RegisterProperties,
+    CsrImm, HasRegisterSets, InstructionProperties, LabelString, LabelStringToken, LoadType,
+    RegisterProperties, StoreType,
 };
 use crate::parser::{ParserNode, Register};
 use crate::passes::{CfgError, GenerationPass};
@@ -274,6 +274,10 @@ fn rule_expand_address_for_load(
 ) {
     if let Some(store_reg) = node.writes_to() {
         if let ParserNode::Load(load) = node {
+            // Only a word load delivers the memory word as it is
+            if load.inst != LoadType::Lw {
+                return;
+            }
             if let Some(AvailableValue::OriginalRegisterWithScalar(reg, off)) =
                 available_in.get(load.rs1.get())
             {
@@ -412,10 +416,14 @@ fn rule_known_values_to_stack(
 }
 
 fn rule_push_value_to_csr_memory(
-    node: &impl InstructionProperties,
+    node: &ParserNode,
     memory_out: &mut AvailableValueMap<MemoryLocation>,
     available_in: &AvailableValueMap<Register>,
 ) {
+    // Only a word store leaves the whole register value in memory
+    if !matches!(node, ParserNode::Store(store) if store.inst == StoreType::Sw) {
+        return;
+    }
     // If the node writes to memory
     if let Some((source, (reg, off))) = node.stores_to_memory() {
         // If the register contains a csr value
@@ -430,10 +438,14 @@ fn rule_push_value_to_csr_memory(
 }
 
 fn rule_pull_value_from_csr_memory(
-    node: &impl InstructionProperties,
+    node: &ParserNode,
     available_out: &mut AvailableValueMap<Register>,
     memory_out: &AvailableValueMap<MemoryLocation>,
 ) {
+    // Only a word load delivers the memory word as it is
+    if !matches!(node, ParserNode::Load(load) if load.inst == LoadType::Lw) {
+        return;
+    }
     // If the node reads from memory
     if let Some(((reg, off), dest)) = node.reads_from_memory() {
         // If the source address is a csr memory location
